@@ -37,10 +37,11 @@ type c19GenCase struct {
 	C         int    `json:"c"`
 	N         int    `json:"n"`
 	Procs     int    `json:"procs"`      // GOMAXPROCS during the call
-	Entropy   string `json:"entropy"`    // inf | zero | finite | barrier
+	Entropy   string `json:"entropy"`    // inf | zero | finite | barrier | transient
 	FailAfter int    `json:"fail_after"` // finite: bytes served before the reader fails
 	// barrier: OkReads Read calls succeed; every later Read fails, and holds its callers until C of them are inside (or
 	// the reader's time limit has passed), so that all producers meet the failure at the same moment
+	// transient: OkReads Read calls succeed, the next one fails, all later ones succeed
 	OkReads int    `json:"ok_reads,omitempty"`
 	Cancel  string `json:"cancel"`   // none | pre | during | held (barrier: cancel once all producers are held, open afterwards)
 	DelayUs int    `json:"delay_us"` // during: delay before the cancellation
@@ -49,8 +50,8 @@ type c19GenCase struct {
 }
 
 func (c c19GenCase) ID() string {
-	if c.Entropy == "barrier" {
-		return fmt.Sprintf("gen|b%d|c%d|n%d|p%d|barrier:%d|%s:%d", c.Bits, c.C, c.N, c.Procs, c.OkReads, c.Cancel, c.DelayUs)
+	if c.Entropy == "barrier" || c.Entropy == "transient" {
+		return fmt.Sprintf("gen|b%d|c%d|n%d|p%d|%s:%d|%s:%d", c.Bits, c.C, c.N, c.Procs, c.Entropy, c.OkReads, c.Cancel, c.DelayUs)
 	}
 	return fmt.Sprintf("gen|b%d|c%d|n%d|p%d|%s:%d|%s:%d", c.Bits, c.C, c.N, c.Procs, c.Entropy, c.FailAfter, c.Cancel, c.DelayUs)
 }
@@ -111,6 +112,9 @@ type c19Reader struct {
 	served   int64
 	returned bool // the call this reader was handed to has returned
 	late     int  // Read calls after that
+
+	// transient mode (SafePrimeGen.tla: cfg.heal): okLeft Read calls succeed, one fails, all later ones succeed
+	transient bool
 
 	// barrier mode (SafePrimeGen.tla: cfg.bar, the producers' state "held", the action BarOpen)
 	barrier    bool
@@ -224,6 +228,18 @@ func (r *c19Reader) Read(p []byte) (int, error) {
 	}
 	if r.barrier {
 		return r.readBarrier(p)
+	}
+	if r.transient {
+		if r.okLeft > 0 || r.failed {
+			if r.okLeft > 0 {
+				r.okLeft--
+			}
+			r.r.Read(p)
+			r.served += int64(len(p))
+			return len(p), nil
+		}
+		r.failed = true
+		return 0, errC19Entropy
 	}
 	if r.left < 0 {
 		r.r.Read(p)
@@ -511,6 +527,9 @@ func c19RunGen(cs c19GenCase) (out c19GenOut) {
 		failAfter = int64(cs.FailAfter)
 	}
 	rd := newC19Reader(cs.Seed, failAfter)
+	if cs.Entropy == "transient" {
+		rd.left, rd.transient, rd.okLeft = -1, true, cs.OkReads
+	}
 	if cs.Entropy == "barrier" {
 		rd = newC19BarrierReader(cs.Seed, cs.OkReads, cs.C, cs.Cancel == "held", 5*time.Second)
 	}
@@ -674,6 +693,9 @@ func c19PairDefect(q, p *big.Int, bits int) string {
 
 func c19GenDesc(cs c19GenCase) string {
 	ent := cs.Entropy
+	if cs.Entropy == "transient" {
+		ent = fmt.Sprintf("source whose Read call number %d fails while all others succeed", cs.OkReads+1)
+	}
 	if cs.Entropy == "barrier" {
 		ent = fmt.Sprintf("source that serves %d Read call(s) and then fails for all %d producers at the same moment", cs.OkReads, cs.C)
 	}
@@ -750,11 +772,14 @@ func c19TraceLines(cs c19GenCase, o c19GenOut, maxC int) []string {
 		return k
 	}
 	reads, bar := 0, 0
-	if cs.Entropy == "barrier" {
+	if cs.Entropy == "barrier" || cs.Entropy == "transient" {
 		if cs.OkReads > 3 {
 			return nil
 		}
-		reads, bar = cs.OkReads, c
+		reads = cs.OkReads
+		if cs.Entropy == "barrier" {
+			bar = c
+		}
 	}
 	lines := []string{j(map[string]any{"ev": "Call", "c": c, "n": cs.N, "entropy": cs.Entropy, "reads": reads, "bar": bar, "pre": cs.Cancel == "pre"})}
 	if o.CancelBefore && (cs.Cancel == "during" || cs.Cancel == "held") {
